@@ -1,3 +1,5 @@
+// NOTE (session 4): NO LONGER INCLUDED by any unit. The assumed `arcs()` contract below was replaced in every unit by
+// `//@import units/inc/weighted_arcs.inc.rs`, where the same clauses are PROVED for the real body (rule E14d). Kept for reference only.
 // ---- prelude (unit weighted_ctor only) ----
 // needs at crate top:  use std::collections::BTreeMap;  use vstd::std_specs::iter::IteratorSpec;
 
